@@ -316,6 +316,12 @@ def drive_session(case):
                                 "attempt failed only at hang-up with %r" % (R.hex(), _short(w.outcome())))
                     else:
                         _judge_error_class(res, socks, rep["rep"], e)
+                elif mrep_ok and kind == "unknown-atyp" and rep["rep"] != 0 and complete and len(R) >= 10:
+                    # a failure reply whose address type is not 1/3/4 (servers that zero-fill failure replies
+                    # send ATYP 0): the reply code is what the statement maps to the error, whatever the
+                    # address type says ("every reply code 0..255 and address type IPv4/IPv6/domain/unknown")
+                    res.label("failure-code-with-unknown-atyp")
+                    _judge_error_class(res, socks, rep["rep"], e)
         if succ_end is None or n_final < succ_end:
             if log.events:
                 res.bad("app-touched-before-success", "final: %r" % ([ev[:2] for ev in log.events],))
@@ -586,6 +592,13 @@ def all_codes_cases():
                 yield _case(req, rep, app, [2, n + len(app)])
                 yield _case(req, rep, app, [1, 1] + [1] * (n + len(app)))
                 yield _case(req, rep, app, [2, n - 1, 1 + len(app)], writes=[[2, "6162"]])
+        if code:
+            # failure replies whose address type is not 1/3/4 (zero-filled as many servers send them)
+            for atyp in (0, 2, 0xff):
+                rep = _rep(code, atyp, b"\x00" * 4, port=0)
+                n = len(reply_bytes(rep))
+                yield _case("CONNECT", rep, b"", [2, n])
+                yield _case("RESOLVE", rep, b"", [1, 1] + [1] * n)
 
 
 def method_reply_cases(full=True):
